@@ -110,6 +110,8 @@ def gen_tree(rng, nfiles=None, depth=2):
             continue
         used.add(c)
         m = BASE_NS + rng.randint(0, 10**6) * 10**9 + rng.choice([0, 250_000_000, 750_000_000])
+        if rng.random() < 0.12:
+            m = rng.choice([0, 0, 1 * 10**9])      # the epoch itself, one second after it (dates before the epoch: not expressible in the driver protocol)
         tree[rel] = (c, m)
     return tree
 
